@@ -244,8 +244,8 @@ Section H.
     eapply (mkFwd md5 rx cfg fs st h c rnd s' i b r0 msg a1 ttlres a2 ua uname orig rl a4 a5 a6 _ newauth aF); try eassumption; try reflexivity.
     - (* code *) revert C2 C3. clear. intros C2 C3. apply negb_false_iff in C2.
       unfold Consts.RAD_Access_Request, Consts.RAD_Status_Server, Consts.RAD_Accounting_Request in *. lia.
-    - split; [exact Ttl | lia].
-    - split; [lia | exact Nul].
+    - split; [exact Ttl | apply N.eqb_neq; exact T0].
+    - split; [apply orb_false_iff in U0 as [U0 _]; apply N.eqb_neq; exact U0 | exact Nul].
   Qed.
 End H.
 
